@@ -122,6 +122,13 @@ class Facts:
         self._canon_consts = None
         self._canonicalise_fields()
 
+    @staticmethod
+    def _tykey(t):
+        """type identity for locating renamed state: the type string without generic arguments (constants used as
+        const-generic arguments may have been renamed as well)"""
+        t = t if isinstance(t, str) else (t.get('s') or '')
+        return t.split('<')[0]
+
     def _canonicalise_fields(self):
         """The rules address private state by the field names of the pinned tree (sa/canon_fields.json).  A field that was
         merely RENAMED (same type, old name gone, new name unknown) is located by type, then by name similarity / declaration
@@ -158,13 +165,13 @@ class Facts:
                 taken = set()
                 paths, leaf_ty = {}, {}
                 for n, t in missing:
-                    c = [(pth, g) for pth, g in leaves if g['name'] == n and g['ty'].get('s') == t and pth not in taken]
+                    c = [(pth, g) for pth, g in leaves if g['name'] == n and self._tykey(g['ty']) == self._tykey(t) and pth not in taken]
                     if len(c) == 1:
                         taken.add(c[0][0]); paths[n] = list(c[0][0]); leaf_ty[n] = c[0][1]['ty']
                 for n, t in missing:
                     if n in paths:
                         continue
-                    c = [(pth, g) for pth, g in leaves if g['ty'].get('s') == t and pth not in taken]
+                    c = [(pth, g) for pth, g in leaves if self._tykey(g['ty']) == self._tykey(t) and pth not in taken]
                     if c:
                         taken.add(c[0][0]); paths[n] = list(c[0][0]); leaf_ty[n] = c[0][1]['ty']
                 if paths:
@@ -178,7 +185,7 @@ class Facts:
                 continue
             used = set()
             for n, t in missing:
-                cands = [f for f in extra if f['ty'].get('s') == t and id(f) not in used]
+                cands = [f for f in extra if self._tykey(f['ty']) == self._tykey(t) and id(f) not in used]
                 if not cands:
                     continue
                 # a rename keeps the declaration position far more often than the spelling: same index first, then the
